@@ -417,7 +417,8 @@ fn unsupported(span: &crate::pos::Span) -> Diagnostic {
 }
 
 fn sparse_table_implicit_len(table: &IndexMap<Sp<u32>, ScriptTableEntry>) -> u32 {
-    table.keys().copied().max().map_or(0, |max| max.value + 1)
+    // (saturating: a key of u32::MAX gives a length that compile_msg rejects as too long)
+    table.keys().copied().max().map_or(0, |max| max.value.saturating_add(1))
 }
 
 fn get_script_table_indices_by_name(
